@@ -97,6 +97,11 @@ CHECKS = {
          "Held on every explored (shape, size, traversal, cancellation point): 13 sizes from 0 to 12000, every single step and (quick: a sixth of) every ordered pair of 16 fan-out/fan-in steps, star/pairs traversals, limit/range mid-stream, cancellation after 0/1/100/5001 rows. 'Always finishes' is restated as bounded progress on the explored sizes.",
          "Closed forms are computed by 30 lines in c07.go; the deadlock certifier is fw/worker.go. Inconclusive (watchdog without certificate) is reported separately.",
          "5/C07"),
+ "C15": ("exploration",
+         "differential monitor over a live table service: the repository's SimpleTableServicer serves generated table sets on a loopback gRPC listener inside the worker, gripper.NewTabularGraph maps them, and (a) every read method of the graph interface, (b) traversals compiled by the driver's own optimizer are compared with the graph materialised from (tables, mapping) - by the reference interpreter and by the same traversal on that graph loaded into kvgraph/Badger; write calls must be refused; a traversal that does not finish is judged by the goroutine-dump deadlock certificate (gRPC stream waits on the in-process peer count as blocked)",
+         "Held on every explored (table set, mapping, observation | program): 13 hostile worlds + 24/300 seeded random worlds, ~8k/150k programs.",
+         "Repeated links (two link rows giving one edge id) are compared with the interpreter on a multigraph only; lookups of such ids are not generated.",
+         "5/C15"),
 }
 
 NOT_YET = "check not built yet in this session (design in DESIGN.md section 5); claimed once the monitor exists and is silent on the unchanged tree"
